@@ -212,7 +212,8 @@ func renderTemplate(path string, model map[string]string, o *Obl) (string, error
 		},
 		"has": func(name string) bool { _, ok := model[name]; return ok },
 	}
-	t, err := template.New("replay").Funcs(funcs).Parse(string(b))
+	// delimiters <<< >>> : Go composite literals contain "{{"
+	t, err := template.New("replay").Delims("<<<", ">>>").Funcs(funcs).Parse(string(b))
 	if err != nil {
 		return "", err
 	}
